@@ -9,16 +9,17 @@
 use std::sync::atomic::{AtomicU64, Ordering};
 use std::sync::{Arc, Barrier};
 
-use blake_hash::{Blake256, Blake512};
-use c2_chacha::{ChaCha20, Ietf};
+use blake_hash::{Blake224, Blake256, Blake384, Blake512};
+use c2_chacha::guts::ChaCha;
+use c2_chacha::{ChaCha12, ChaCha20, ChaCha8, Ietf, XChaCha12, XChaCha20, XChaCha8};
 use cipher::generic_array::GenericArray;
 use cipher::{BlockEncrypt, NewBlockCipher, NewCipher, StreamCipher, StreamCipherSeek};
 use digest::generic_array::typenum::{U128, U32, U64};
 use digest::Digest;
 use groestl_aesni::{Groestl224, Groestl256, Groestl384, Groestl512};
-use jh_x86_64::{Jh256, Jh512};
+use jh_x86_64::{Jh224, Jh256, Jh384, Jh512};
 use skein_hash::{Skein1024, Skein256, Skein512};
-use threefish_cipher::Threefish256;
+use threefish_cipher::{Threefish1024, Threefish256, Threefish512};
 
 fn splitmix(x: &mut u64) -> u64 {
     *x = x.wrapping_add(0x9e37_79b9_7f4a_7c15);
@@ -36,11 +37,12 @@ fn fold(b: &[u8]) -> u64 {
     h
 }
 
-pub const OP_NAMES: [&str; 15] = [
+pub const OP_NAMES: [&str; 31] = [
     "groestl256", "groestl512", "groestl224", "groestl384", "jh256", "blake256", "blake512", "chacha20", "ietf_seek", "skein256_256", "threefish256", "skein512_512", "skein1024_1024",
-    "jh512", "skein512_256",
+    "jh512", "skein512_256", "blake224", "blake384", "jh224", "jh384", "chacha8", "chacha12", "xchacha8", "xchacha12", "xchacha20", "threefish512", "threefish1024_tweak", "block_api_refill4",
+    "skein256_512", "skein1024_256", "groestl256_chunked", "blake256_chunked",
 ];
-pub const NOPS: u64 = 15;
+pub const NOPS: u64 = 31;
 
 /// one short operation on a private instance; message/key derived from the tag so that every result is unique
 fn op(kind: u64, tag: u64) -> u64 {
@@ -81,7 +83,76 @@ fn op(kind: u64, tag: u64) -> u64 {
         11 => fold(&Skein512::<U64>::digest(&msg[..n])),
         12 => fold(&Skein1024::<U128>::digest(&msg[..n])),
         13 => fold(&Jh512::digest(&msg[..n])),
-        _ => fold(&Skein512::<U32>::digest(&msg[..n])),
+        14 => fold(&Skein512::<U32>::digest(&msg[..n])),
+        15 => fold(&Blake224::digest(&msg[..n])),
+        16 => fold(&Blake384::digest(&msg[..n])),
+        17 => fold(&Jh224::digest(&msg[..n])),
+        18 => fold(&Jh384::digest(&msg[..n])),
+        19 => {
+            let mut c = ChaCha8::new(GenericArray::from_slice(&msg[..32]), GenericArray::from_slice(&msg[32..40]));
+            let mut buf = [0u8; 33];
+            c.apply_keystream(&mut buf);
+            fold(&buf)
+        }
+        20 => {
+            let mut c = ChaCha12::new(GenericArray::from_slice(&msg[..32]), GenericArray::from_slice(&msg[32..40]));
+            let mut buf = [0u8; 65];
+            c.seek(7u32);
+            c.apply_keystream(&mut buf);
+            fold(&buf)
+        }
+        21 | 22 | 23 => {
+            let mut nonce = [0u8; 24];
+            nonce.copy_from_slice(&msg[8..32]);
+            let key = GenericArray::from_slice(&msg[..32]);
+            let mut buf = [0u8; 40];
+            match kind {
+                21 => XChaCha8::new(key, GenericArray::from_slice(&nonce)).apply_keystream(&mut buf),
+                22 => XChaCha12::new(key, GenericArray::from_slice(&nonce)).apply_keystream(&mut buf),
+                _ => XChaCha20::new(key, GenericArray::from_slice(&nonce)).apply_keystream(&mut buf),
+            }
+            fold(&buf)
+        }
+        24 => {
+            let mut key = [0u8; 64];
+            key[..40].copy_from_slice(&msg);
+            let f = Threefish512::new(GenericArray::from_slice(&key));
+            let mut b = GenericArray::clone_from_slice(&key);
+            f.encrypt_block(&mut b);
+            fold(&b)
+        }
+        25 => {
+            let mut key = [0u8; 128];
+            key[..40].copy_from_slice(&msg);
+            let f = Threefish1024::with_tweak(GenericArray::from_slice(&key), tag, !tag);
+            let mut b = GenericArray::clone_from_slice(&key);
+            f.encrypt_block(&mut b);
+            fold(&b)
+        }
+        26 => {
+            let mut key = [0u8; 32];
+            key.copy_from_slice(&msg[..32]);
+            let mut c = ChaCha::new(&key, &msg[28..40]);
+            c.set_stream_param(0, tag | 0xffff_fffe);
+            let mut out = [0u8; 256];
+            c.refill4(4, &mut out);
+            fold(&out) ^ c.get_stream_param(0)
+        }
+        27 => fold(&Skein256::<U64>::digest(&msg[..n])),
+        28 => fold(&Skein1024::<U32>::digest(&msg[..n])),
+        29 => {
+            let mut h = Groestl256::new();
+            h.update(&msg[..n / 2]);
+            let mut h2 = h.clone();
+            h2.update(&msg[n / 2..n]);
+            fold(&h2.finalize_reset())
+        }
+        _ => {
+            let mut h = Blake256::new();
+            h.update(&msg[..n / 2]);
+            h.update(&msg[n / 2..n]);
+            fold(&h.finalize())
+        }
     }
 }
 
@@ -108,7 +179,7 @@ fn main() {
     let a: Vec<String> = std::env::args().collect();
     let mode = a.get(1).map(|s| s.as_str()).unwrap_or("");
     let base: u64 = a.get(2).and_then(|s| s.parse().ok()).unwrap_or(1);
-    let nw: u64 = a.get(3).and_then(|s| s.parse().ok()).unwrap_or(15);
+    let nw: u64 = a.get(3).and_then(|s| s.parse().ok()).unwrap_or(62);
     match mode {
         "expected" => {
             // sequential, one at a time; workloads separated by ';'
